@@ -281,7 +281,38 @@ func genPQCase(r *rand.Rand, gi int) pqCase {
 			}
 		}
 	}
+	if gi%7 == 3 {
+		pc.acrossMidnight(gi / 7 % 3)
+	}
 	return pc
+}
+
+// acrossMidnight moves the whole case (window, samples) so that a UTC midnight lies 195 s or 600 s before the first
+// evaluation or 15 s after it, and files the series rows under the days the samples then fall on, as the writer
+// does: a series that lives on has a row on both days, one that ended before midnight on the first only. The
+// date range of the index and label reads then covers two days with unequal numbers of rows per series.
+func (pc *pqCase) acrossMidnight(k int) {
+	d := []int64{195, -15, 600}[k]
+	aligned := pc.Start - (pc.Start-baseSec)%15
+	midnight := (baseSec/86400 + 1) * 86400
+	shift := midnight + d - aligned
+	pc.Start += shift
+	pc.End += shift
+	for _, s := range pc.Series {
+		days := map[int32]bool{}
+		for i := range s.Samples {
+			s.Samples[i].Ms += shift * 1000
+			days[int32(s.Samples[i].Ms/86400000)] = true
+		}
+		if len(days) == 0 {
+			days[int32(pc.Start/86400)] = true
+		}
+		s.Days = s.Days[:0]
+		for day := range days {
+			s.Days = append(s.Days, day)
+		}
+		sort.Slice(s.Days, func(i, j int) bool { return s.Days[i] < s.Days[j] })
+	}
 }
 
 func (pc *pqCase) evalTimes() []int64 {
